@@ -5,7 +5,7 @@ From MM Require Import lib.ListSet lib.Values model.Heap model.Elig model.Search
   gen.Gen_GeoAssignments gen.Gen_Search
   proofs.EligProofs proofs.GroupSpecs proofs.SearchBridge proofs.ExhaustiveProofs proofs.GreedyProofs proofs.AdmittedProofs.
 Import ListNotations.
-From MM Require Import gen.Gen_HeapDict gen.Gen_Exhaustive gen.Gen_Greedy gen.Gen_Results proofs.ExhaustiveBridge proofs.GreedyBridge proofs.ResultsBridge.
+From MM Require Import gen.Gen_HeapDict gen.Gen_Exhaustive gen.Gen_Greedy gen.Gen_Results gen.Gen_Admission proofs.ExhaustiveBridge proofs.GreedyBridge proofs.ResultsBridge proofs.AdmissionBridge.
 
 (* For every value type (whatever numpy computes), every comparison of scores, every list of
    eligibility rows of the admitted geos, every parameter record and every kernel behaviour: *)
@@ -124,6 +124,26 @@ Qed.
 Print Assumptions C01_translated_search_results_is_image_of_heap.
 Print Assumptions C01_translated_exhaustive_results_report_legal_groups.
 Print Assumptions C01_translated_greedy_results_report_legal_groups.
+
+(* admission, stated on the Gallina regenerated on this run from geos_within_constraints and the geo_assignments
+   property (gen/Gen_Admission.v; the pandas selections are oracles, instantiated with the selections the model computes
+   from the per-geo records): the translated code admits only eligible, non-excluded geos and every geo that cannot be
+   excluded, also under n_geos_max *)
+Theorem C01_translated_admission_is_the_model :
+  forall (V : Type) (O : vops V) (par : spar V) (gs : list (grec V)),
+    gen_geos_within_constraints (too_large_set O par gs) (over_budget_set O par gs) (assignable_set O gs)
+      (must_include_set O gs) (by_impact_all O gs) (p_n_geos_max par) = within_constraints O par gs /\
+    gen_geo_index (positions gs) (within_constraints O par gs) = geo_index O par gs.
+Proof. intros. split; [apply gen_within_constraints_is_model|apply gen_geo_index_is_model]. Qed.
+Theorem C01_translated_admission_keeps_every_must_include_geo :
+  forall (V : Type) (O : vops V) (par : spar V) (gs : list (grec V)) (i : nat),
+    (i < length gs)%nat -> must_include O gs i = true ->
+    In i (gen_geo_index (positions gs)
+            (gen_geos_within_constraints (too_large_set O par gs) (over_budget_set O par gs) (assignable_set O gs)
+               (must_include_set O gs) (by_impact_all O gs) (p_n_geos_max par))).
+Proof. intros. rewrite gen_within_constraints_is_model, gen_geo_index_is_model. apply admitted_all_must_include; assumption. Qed.
+Print Assumptions C01_translated_admission_is_the_model.
+Print Assumptions C01_translated_admission_keeps_every_must_include_geo.
 
 From Coq Require Import PrimFloat.
 (* non-vacuity: on a concrete instance (4 geos of mixed types, float arithmetic, scores = number of control geos)
